@@ -1,6 +1,7 @@
 import Driver.Util
 import GqlgenVerif.Model.ServerState
 import GqlgenVerif.Model.ServerStateCfg
+import GqlgenVerif.Gen.RespHeaders
 /-! Line-protocol driver for C07: runs `Model/ServerState` (configured from the regenerated
 `Gen/PoolReset.lean`) on the request histories of the Go harness.
 
@@ -11,6 +12,10 @@ newserver                                   a new handler.Server (caches empty; 
 poolgc                                      two GC cycles: the pool is empty
 req <id> <apqHit> <qcHit> <request…>        serve one request alone: get(newest pooled) ; run ; put
 witness                                     search the regenerated reset list for a leaking two-request history
+hdrwitness                                  run the regenerated `mergeHeaders` program (Gen/RespHeaders.lean) on a grid of
+                                            configured header maps × pairs of Accept headers: `none`, or the first
+                                            configuration/history whose answer differs from a fresh server's or that
+                                            changes the configured map
 ```
 `req` answers `<class> [params] apq=<digest> qc=<digest> | spec=<same|DIFF> poolzero=<0|1> pool=<n>`.
 -/
@@ -174,6 +179,37 @@ def witnessFor (cfg : Cfg) : Option String :=
     | some (_, o) => if o != spec cfg env (fun _ => none) r2 then some f else none
     | none => none
 
+/-- `determineResponseContentType` on the grid's inputs: a configured Content-Type wins, no Accept = json -/
+def gridNeg (m : RH.HMap) (accept : String) : String :=
+  match m.find? (fun e => e.1.toLower == "content-type") with
+  | some e => e.2.headD ""
+  | none => if accept == "" then "application/json" else accept
+
+/-- search a grid for a configured map / pair of requests on which the regenerated `mergeHeaders` makes the second
+answer depend on the first, or changes the configured map -/
+def hdrWitness : Option String :=
+  let prog := Gen.RespHeaders.mergeProg
+  let ps := Gen.RespHeaders.mergeParams
+  let cfgs : List (String × RH.Heap × RH.Ref) := [
+    ("nil", [], none), ("empty", [[]], some 0),
+    ("cors", [[("Access-Control-Allow-Origin", ["*"])]], some 0),
+    ("content-type", [[("Content-Type", ["text/x"]), ("X-Cfg", ["1"])]], some 0)]
+  let accepts := ["", "application/json", "application/graphql-response+json"]
+  let leak := cfgs.findSome? fun (name, h, cfg) =>
+    accepts.findSome? fun a1 =>
+      accepts.findSome? fun a2 =>
+        let got := RH.serveAll prog ps gridNeg h [(cfg, a1), (cfg, a2)]
+        let fresh := [(RH.serve prog ps gridNeg h cfg a1).1, (RH.serve prog ps gridNeg h cfg a2).1]
+        if got != fresh then
+          some s!"leak ResponseHeaders={name} first-Accept={a1} second-Accept={a2} answered={repr (got.getD 1 none)} fresh={repr (fresh.getD 1 none)}"
+        else none
+  leak.orElse fun _ => cfgs.findSome? fun (name, h, cfg) =>
+    accepts.findSome? fun a1 =>
+      let (a, h1) := RH.serve prog ps gridNeg h cfg a1
+      if h1 != h then some s!"mutated ResponseHeaders={name} Accept={a1} now={repr h1}"
+      else if a.isNone then some s!"panic ResponseHeaders={name} Accept={a1}"
+      else none
+
 def stepD (d : DState) (line : String) : DState × String :=
   match line.splitOn " " with
   | ["def", q, v, h] =>
@@ -191,6 +227,7 @@ def stepD (d : DState) (line : String) : DState × String :=
   | ["poolgc"] => ({ d with st := { d.st with pool := [] } }, "ok")
   | ["witness"] =>
     (d, match witnessFor genCfg with | some f => s!"leak {f}" | none => "none")
+  | ["hdrwitness"] => (d, (hdrWitness.getD "none").replace "\n" " ")
   | "req" :: id :: a :: q :: rest =>
     match id.toNat?, pReq rest with
     | some id, some r =>
